@@ -69,10 +69,12 @@ func fixedPriceGuards(w *World, r *Report, tm *Terms) {
 	runGuard(w, r, tm, guardSpec{rule: "FP-REMAINDER", id: "PlaceBid:remainder-covers-bid", root: place, common: fixed, commit: commit, commitTxt: "the Bid record write",
 		what: "a fixed price bid is recorded only if RemainingSellingCoin ≥ the bid's selling amount",
 		cases: ordCases("remainder", "bid", func(t *Term) bool { return fieldBase(t, "RemainingSellingCoin") != nil },
-			func(t *Term) bool { return !t.Any(func(x *Term) bool { return isField(x, "RemainingSellingCoin") }) && t.Op != "const" }, func(o int) bool { return o >= 0 }),
+			func(t *Term) bool {
+				return !t.Any(func(x *Term) bool { return isField(x, "RemainingSellingCoin") }) && t.Op != "const"
+			}, func(o int) bool { return o >= 0 }),
 		atoms: []string{"pair0"}, consequence: "the auction can sell more than it offered (the remainder goes negative / panics)"})
 	runGuard(w, r, tm, guardSpec{rule: "FP-CAP", id: "PlaceBid:cumulative-cap", root: place, common: fixed, commit: commit, commitTxt: "the Bid record write",
-		what: "a fixed price bid is recorded only if the bidder's total in this auction including this bid ≤ MaxBidAmount",
+		what:  "a fixed price bid is recorded only if the bidder's total in this auction including this bid ≤ MaxBidAmount",
 		cases: ordCases("total", "MaxBidAmount", func(t *Term) bool { return !isCapField(t) && t.Op != "const" }, isCapField, func(o int) bool { return o <= 0 }),
 		atoms: []string{"pair0"}, consequence: "a bidder can exceed the allowance the allow-list granted"})
 	// what the total consists of, and which allow-list entry is consulted
@@ -109,7 +111,7 @@ func fixedPriceGuards(w *World, r *Report, tm *Terms) {
 		bt := bt
 		runGuard(w, r, tm, guardSpec{rule: "BATCH-CAP", id: fmt.Sprintf("PlaceBid:type%d", bt), root: place, common: func(c *caseRule) { c.vals = append(c.vals, bidTypeValuation(bt)) },
 			commit: commit, commitTxt: "the Bid record write",
-			what: fmt.Sprintf("a batch bid (type %d) is recorded only if its selling amount ≤ MaxBidAmount", bt),
+			what:  fmt.Sprintf("a batch bid (type %d) is recorded only if its selling amount ≤ MaxBidAmount", bt),
 			cases: ordCases("bid", "MaxBidAmount", func(t *Term) bool { return !isCapField(t) && t.Op != "const" }, isCapField, func(o int) bool { return o <= 0 }),
 			atoms: []string{"pair0"}, consequence: "a single batch bid can exceed the allowance"})
 	}
@@ -158,7 +160,7 @@ func checkScanFilter(w *World, r *Report, tm *Terms, rule string) {
 				n++
 				construct := fmt.Sprintf("%s:scan#%d", fnName(fn), n)
 				// elements of the result list
-				var bad []string
+				var bad, skipEnds []string
 				guard := (*ssa.BasicBlock)(nil)
 				for _, bb := range fn.Blocks {
 					iff, ok := bb.Instrs[len(bb.Instrs)-1].(*ssa.If)
@@ -178,10 +180,16 @@ func checkScanFilter(w *World, r *Report, tm *Terms, rule string) {
 					}
 					if (isElemAuc(l) && isOwn(rt)) || (isElemAuc(rt) && isOwn(l)) {
 						// the successor taken when the ids are equal
+						other := bb.Succs[0]
 						if bo.Op == token.EQL {
-							guard = bb.Succs[0]
+							guard, other = bb.Succs[0], bb.Succs[1]
 						} else {
 							guard = bb.Succs[1]
+						}
+						// an element of another auction is skipped, it does not end the scan: the other successor
+						// stays inside the loop that visits the elements
+						if lp := fnInfo(fn).LoopOf[bb]; lp != nil && !lp.Blocks[other] {
+							skipEnds = append(skipEnds, w.instrPos(iff))
 						}
 					}
 				}
@@ -212,6 +220,9 @@ func checkScanFilter(w *World, r *Report, tm *Terms, rule string) {
 					}
 				}
 				sort.Strings(bad)
+				r.Check(len(skipEnds) == 0, rule, construct+":skip-continues", w.instrPos(in),
+					"an element of another auction met by the scan is skipped and the scan goes on to the next element",
+					"the auction filter at "+strings.Join(skipEnds, ", ")+" leaves the loop when it meets an element of another auction: the scan is ordered by (auction id, bid id), so a bidder's bid in an auction with a lower id hides all their bids in this auction from the total")
 				r.Check(len(bad) == 0 && guard != nil, rule, construct, w.instrPos(in),
 					"the result of the unprefixed Bid scan ("+fnName(callee)+") is used only for elements whose AuctionId equals the operated auction's id",
 					"elements of a scan over all auctions' bids are used without the auction filter at "+strings.Join(dedupe(bad), ", ")+": a bidder's bids in one auction count against (or for) another auction")
